@@ -22,6 +22,17 @@ type TickSender struct {
 type tickManager struct {
 	p     *Proc
 	inner *messages.Manager
+	// live: retransmitters registered and not yet removed - stopped when the process dies (a dead
+	// process retransmits nothing)
+	live map[string]messages.StoppableMessenger
+}
+
+// stopAll ends the retransmission loops of a process that died.
+func (m *tickManager) stopAll() {
+	for id, s := range m.live {
+		s.Stop()
+		delete(m.live, id)
+	}
 }
 
 func (m *tickManager) AddSender(id string, messenger messages.StoppableMessenger) error {
@@ -36,13 +47,24 @@ func (m *tickManager) AddSender(id string, messenger messages.StoppableMessenger
 		m.p.N.Tickers = append(m.p.N.Tickers, ts)
 		w.mu.Unlock()
 	}
-	return m.inner.AddSender(id, messenger)
+	err := m.inner.AddSender(id, messenger)
+	if err == nil {
+		w := m.p.N.W
+		w.mu.Lock()
+		m.live[id] = messenger
+		w.mu.Unlock()
+	}
+	return err
 }
 
 func (m *tickManager) RemoveSender(id string) {
 	if m.p.point("mgr.RemoveSender", "enter", "") {
 		return
 	}
+	w := m.p.N.W
+	w.mu.Lock()
+	delete(m.live, id)
+	w.mu.Unlock()
 	m.inner.RemoveSender(id)
 }
 
